@@ -268,7 +268,7 @@ Proof.
   change (padk 4 (hh * 100 + mm)) with (date_enc (DYear (hh * 100 + mm))).
   rewrite parse_date_enc; [|cbn [valid_date]; inr; lia|right; reflexivity].
   cbn [bind].
-  destruct (parse_time_nondigit dash (dt_enc b) eq_refl) as [e ->].
+  destruct (parse_time_nondigit dash (dt_enc b) eq_refl) as [e ->]. cbn [bind].
   unfold parse_zone. pose proof (dt_enc_len b).
   assert ((length (dash :: dt_enc b) <=? 4)%nat = false) as -> by (cbn [length]; lia).
   assert (Hy : ok_year (d_year (dt_date b)) = true).
